@@ -343,8 +343,11 @@ class C05(Prop):
             if not (x == y) or hash(x) != hash(y) or str(x) != str(y) or len(x) != len(y):
                 return False, f"SpecifierSet({sa!r}) & SpecifierSet({sb!r}) = {x!r}, parsed from the concatenation: {y!r}"
             for c in inp["cands"]:
-                if x.contains(c, prereleases=True) != y.contains(c, prereleases=True):
-                    return False, f"& and concatenation differ on {c!r}"
+                for p in (True, None, False):
+                    if x.contains(c, prereleases=p) != y.contains(c, prereleases=p):
+                        return False, f"& and concatenation differ on {c!r} (prereleases={p})"
+            if x.prereleases != y.prereleases or [str(v) for v in x.filter(inp["cands"])] != [str(v) for v in y.filter(inp["cands"])]:
+                return False, f"& and concatenation differ in .prereleases / filter(): {x!r} vs {y!r}"
             return True, ""
 
         if law == "str_roundtrip":
